@@ -69,6 +69,62 @@ def _erase_site(fn, body):
     raise TranslateError("%s: _peerIndex.erase site has an unrecognised shape" % fn)
 
 
+def _call_args(body, callee):
+    """Top-level argument lists of every call `callee(` in `body` (comment-stripped)."""
+    out = []
+    for m in re.finditer(r"(?<![\w>.])%s\s*\(" % re.escape(callee), body):
+        i = m.end()
+        depth, cur, args = 1, "", []
+        while i < len(body) and depth:
+            c = body[i]
+            if c in "([{":
+                depth += 1
+            elif c in ")]}":
+                depth -= 1
+                if depth == 0:
+                    break
+            if c == "," and depth == 1:
+                args.append(cur.strip()); cur = ""
+            else:
+                cur += c
+            i += 1
+        args.append(cur.strip())
+        out.append([re.sub(r"\s+", " ", a) for a in args])
+    return out
+
+
+def _mask(fn, body, arm_call, obj):
+    """Interest mask a function hands to epoll: `std::uint32_t ev = <base>; [if (ET) ev |= EPOLLET;] [if (<obj>->wantWrite && !<obj>->wq.empty()) ev |= EPOLLOUT;] <arm_call>(fd, ev)`.
+    Returns (base tokens, EPOLLOUT-condition text or None)."""
+    m = re.search(r"std::uint32_t\s+ev\s*=\s*([^;]+);", body)
+    if not m:
+        raise TranslateError("%s: interest mask is not built in a local `std::uint32_t ev = …`" % fn)
+    base = [x.strip() for x in m.group(1).split("|")]
+    for b in base:
+        if not re.fullmatch(r"EPOLL[A-Z]+|0", b):
+            raise TranslateError("%s: interest mask base `%s` is not a set of EPOLL* flags" % (fn, m.group(1).strip()))
+    rest = body[m.end():]
+    call = re.search(r"%s\s*\(\s*[\w>\-]+\s*,\s*ev\s*\)" % arm_call, rest)
+    if not call:
+        raise TranslateError("%s: `ev` is not handed to %s(fd, ev)" % (fn, arm_call))
+    between = rest[:call.start()]
+    ors = re.findall(r"if\s*\(([^;{}]*?)\)\s*ev\s*\|=\s*(\w+)\s*;", between, re.S)
+    other = re.sub(r"if\s*\(([^;{}]*?)\)\s*ev\s*\|=\s*(\w+)\s*;", "", between, flags=re.S)
+    if re.search(r"\bev\b", other):
+        raise TranslateError("%s: `ev` is modified in a way the translator does not understand" % fn)
+    out_cond = None
+    for cond, flag in ors:
+        cond = re.sub(r"\s+", " ", cond.strip())
+        if flag == "EPOLLET":
+            if cond != "_config.useEdgeTriggered":
+                raise TranslateError("%s: EPOLLET added under `%s`" % (fn, cond))
+        elif flag == "EPOLLOUT":
+            out_cond = cond
+        else:
+            raise TranslateError("%s: unexpected flag %s or-ed into the interest mask" % (fn, flag))
+    return base, out_cond
+
+
 def gen(repo):
     src = read(repo, F)
     tsrc = read(repo, T)
@@ -86,53 +142,56 @@ def gen(repo):
     cob = _bool(cfg, "closeOnBackpressure")
     edge = _bool(cfg, "useEdgeTriggered")
 
-    # ---- receive buffers: resized to ioReadChunk, whole buffer offered to the kernel, delivered length = return value
-    rfl = cxxscan.function_body(src, "readFromListener")
-    oc = cxxscan.function_body(src, "onClient")
-    pat_l = r"buf\.resize\(\s*_config\.ioReadChunk\s*\)\s*;.*?::recvfrom\(\s*lst->fd\s*,\s*buf\.data\(\)\s*,\s*\(int\)\s*buf\.size\(\)\s*,\s*0\s*,"
-    pat_c = r"buf\.resize\(\s*_config\.ioReadChunk\s*\)\s*;.*?::recv\(\s*s->fd\s*,\s*buf\.data\(\)\s*,\s*\(int\)\s*buf\.size\(\)\s*,\s*0\s*\)"
-    if not re.search(pat_l, rfl, re.S):
-        raise TranslateError("readFromListener: receive buffer is not `buf.resize(_config.ioReadChunk)` offered whole to recvfrom(flags 0)")
-    if not re.search(pat_c, oc, re.S):
-        raise TranslateError("onClient: receive buffer is not `buf.resize(_config.ioReadChunk)` offered whole to recv(flags 0)")
+    bodies = {}
+    for fn in MIRRORED + ["addListenerDo", "key", "addressFromSockaddr"]:
+        try:
+            bodies[fn] = cxxscan.function_body(src, fn)
+        except cxxscan.ScanError:
+            raise TranslateError("mirrored function %s no longer exists in udp_engine.hpp" % fn)
+    rfl, oc, via = bodies["readFromListener"], bodies["onClient"], bodies["viaDo"]
+
+    # ---- receive buffers: resized to ioReadChunk, whole buffer offered to the kernel, delivered length = return value (DERIVED booleans)
+    pat_l = r"buf\.resize\(\s*_config\.ioReadChunk\s*\)\s*;.*?::recvfrom\(\s*lst->fd\s*,\s*buf\.data\(\)\s*,\s*\(int\)\s*buf\.size\(\)\s*,"
+    pat_c = r"buf\.resize\(\s*_config\.ioReadChunk\s*\)\s*;.*?::recv\(\s*s->fd\s*,\s*buf\.data\(\)\s*,\s*\(int\)\s*buf\.size\(\)\s*,"
     view = r"BufferView\s*\{\s*buf\.data\(\)\s*,\s*static_cast<std::size_t>\(\s*n\s*\)\s*\}"
-    if not re.search(view, rfl) or not re.search(view, oc):
-        raise TranslateError("data callback is not invoked with BufferView{buf.data(), n}")
+    recv_buf_l = bool(re.search(pat_l, rfl, re.S)) and len(re.findall(r"buf\.resize\(", rfl)) == 1
+    recv_buf_c = bool(re.search(pat_c, oc, re.S)) and len(re.findall(r"buf\.resize\(", oc)) == 1
+    view_l = len(re.findall(view, rfl)) == 1 and len(re.findall(r"BufferView\s*\{", rfl)) == 1
+    view_c = len(re.findall(view, oc)) == 1 and len(re.findall(r"BufferView\s*\{\s*buf", oc)) == 1
 
     # ---- every function that mutates _peerIndex
     muts = {}
-    for mm in re.finditer(r"_peerIndex\s*(?:\.\s*(emplace|erase|insert|clear|insert_or_assign|try_emplace|swap|extract|merge)\s*\(|\[)", src):
-        # enclosing function = last "name(...) {"-style header among the engine's known private methods before this offset
-        kind = mm.group(1) or "subscript"
-        encl = None
-        for fn in ("readFromListener", "viaDo", "closeNow", "shutdownDrain", "connectDo", "sendDo", "runGc", "process", "flushListener",
-                   "writeClient", "onClient", "addListenerDo", "closeListenerNow", "start", "stop"):
-            try:
-                b = cxxscan.function_body(src, fn)
-            except cxxscan.ScanError:
-                continue
-            at = src.find(b)
-            if at <= mm.start() < at + len(b):
-                encl = fn
-                break
+    spans = {}
+    for fn in ("readFromListener", "viaDo", "closeNow", "shutdownDrain", "connectDo", "sendDo", "runGc", "process", "flushListener",
+               "writeClient", "onClient", "addListenerDo", "closeListenerNow", "start", "stop"):
+        try:
+            b = cxxscan.function_body(src, fn)
+        except cxxscan.ScanError:
+            continue
+        at = src.find(b)
+        spans[fn] = (at, at + len(b))
+    for mm in re.finditer(r"_peerIndex\s*(?:\.\s*(emplace|erase|insert|clear|insert_or_assign|try_emplace|swap|extract|merge)\s*\(|\[|=[^=])", src):
+        kind = mm.group(1) or ("subscript" if "[" in mm.group(0) else "assign")
+        encl = next((fn for fn, (a0, b0) in spans.items() if a0 <= mm.start() < b0), None)
         if encl is None:
             raise TranslateError("_peerIndex is mutated (%s) outside the functions the model mirrors (offset %d)" % (kind, mm.start()))
         muts.setdefault(encl, []).append(kind)
     expect = {"readFromListener": ["emplace"], "viaDo": ["emplace"], "closeNow": ["erase"], "shutdownDrain": ["erase"]}
     if muts != expect:
         raise TranslateError("_peerIndex mutation sites changed: %r (model mirrors %r)" % (muts, expect))
-    close_guard = _erase_site("closeNow", cxxscan.function_body(src, "closeNow"))
-    drain_guard = _erase_site("shutdownDrain", cxxscan.function_body(src, "shutdownDrain"))
-    # insertion guards
-    if not re.search(r"if\s*\(\s*it\s*==\s*_peerIndex\.end\(\)\s*\)\s*\{.*?_peerIndex\.emplace\(\s*k\s*,\s*sid\s*\)\s*;", rfl, re.S):
-        raise TranslateError("readFromListener: _peerIndex.emplace(k, sid) is not under `it == _peerIndex.end()`")
-    via = cxxscan.function_body(src, "viaDo")
-    if not re.search(r"bool\s+peerExists\s*=\s*\(\s*pit\s*!=\s*_peerIndex\.end\(\)\s*\)\s*;", via) or \
-       not re.search(r"if\s*\(\s*!\s*peerExists\s*\)\s*\{\s*_peerIndex\.emplace\(\s*k\s*,\s*vr\.sid\s*\)\s*;\s*\}", via):
-        raise TranslateError("viaDo: _peerIndex.emplace(k, vr.sid) is not under `!peerExists`")
+    close_guard = _erase_site("closeNow", bodies["closeNow"])
+    drain_guard = _erase_site("shutdownDrain", bodies["shutdownDrain"])
+    # insertion guards (DERIVED: "absent" only if the emplace sits under the not-found test)
+    ins_rfl = "absent" if re.search(r"if\s*\(\s*it\s*==\s*_peerIndex\.end\(\)\s*\)\s*\{.*?_peerIndex\.emplace\(\s*k\s*,\s*sid\s*\)\s*;", rfl, re.S) and \
+        re.search(r"auto\s+it\s*=\s*_peerIndex\.find\(\s*k\s*\)\s*;", rfl) and re.search(r"std::string\s+k\s*=\s*key\(\s*from\s*\)\s*;", rfl) else "unguarded"
+    ins_via = "absent" if re.search(r"bool\s+peerExists\s*=\s*\(\s*pit\s*!=\s*_peerIndex\.end\(\)\s*\)\s*;", via) and \
+        re.search(r"if\s*\(\s*!\s*peerExists\s*\)\s*\{\s*_peerIndex\.emplace\(\s*k\s*,\s*vr\.sid\s*\)\s*;\s*\}", via) and \
+        re.search(r"auto\s+pit\s*=\s*_peerIndex\.find\(\s*k\s*\)\s*;", via) and re.search(r"std::string\s+k\s*=\s*key\(\s*to\s*\)\s*;", via) else "unguarded"
+    # the lookup that picks the session of an arriving datagram: `sid = it->second` in the found branch, nothing else
+    lookup_plain = bool(re.search(r"else\s*\{\s*sid\s*=\s*it->second\s*;\s*\}", rfl))
 
     # ---- write-queue overflow tests in sendDo
-    sd = cxxscan.function_body(src, "sendDo")
+    sd = bodies["sendDo"]
     ops = re.findall(r"if\s*\(\s*(s|lst)->wq\.size\(\)\s*(>=|>|==|<=|<|!=)\s*_config\.maxWriteQueue\s*\)", sd)
     if sorted(o[0] for o in ops) != ["lst", "s"]:
         raise TranslateError("sendDo: expected one overflow test per write queue (client, listener), found %r" % (ops,))
@@ -140,6 +199,65 @@ def gen(repo):
     for k, v in ovf.items():
         if v not in (">", ">="):
             raise TranslateError("sendDo: overflow test of %s->wq uses `%s`" % (k, v))
+
+    # ---- epoll interest masks
+    add_l, add_l_out = _mask("addListenerDo", bodies["addListenerDo"], "addEpoll", "lst")
+    add_c, add_c_out = _mask("connectDo", bodies["connectDo"], "addEpoll", "s")
+    upd_l, upd_l_out = _mask("updateListener", bodies["updateListener"], "modEpoll", "lst")
+    upd_c, upd_c_out = _mask("updateClient", bodies["updateClient"], "modEpoll", "s")
+    if add_l_out is not None or add_c_out is not None:
+        raise TranslateError("a freshly added socket is armed with EPOLLOUT")
+    out_l = upd_l_out == "lst->wantWrite && !lst->wq.empty()"
+    out_c = upd_c_out == "s->wantWrite && !s->wq.empty()"
+    if not out_l or not out_c:
+        raise TranslateError("updateListener/updateClient: EPOLLOUT is not armed exactly under `wantWrite && !wq.empty()` (%r / %r)" % (upd_l_out, upd_c_out))
+
+    # ---- flags of every socket I/O call, socket() types, setsockopt names
+    io_flags = []
+    for fn in MIRRORED:
+        for callee, idx in (("::sendto", 3), ("::send", 3), ("::recvfrom", 3), ("::recv", 3)):
+            for args in _call_args(bodies[fn], callee):
+                if len(args) <= idx:
+                    raise TranslateError("%s: cannot read the flags argument of %s" % (fn, callee))
+                io_flags.append((fn, callee[2:], args[idx]))
+    sockopts, socktypes = [], []
+    for fn in MIRRORED + ["addListenerDo"]:
+        for args in _call_args(bodies[fn], "::setsockopt"):
+            sockopts.append((fn, args[1], args[2]))
+        for args in _call_args(bodies[fn], "setsockopt"):
+            if (fn, args[1], args[2]) not in sockopts:
+                sockopts.append((fn, args[1], args[2]))
+        for args in _call_args(bodies[fn], "::socket"):
+            socktypes.append((fn, args[1]))
+
+    # ---- address canonicalisation
+    kb = re.sub(r"\s+", " ", bodies["key"])
+    key_ok = bool(re.search(r"getnameinfo\(reinterpret_cast<const sockaddr \*>\(&ss\), sl, h, sizeof\(h\), sv, sizeof\(sv\), NI_NUMERICHOST \| NI_NUMERICSERV\) == 0", kb)) and \
+        bool(re.search(r"std::string o\(h\); o\.push_back\(':'\); o\.append\(sv\); return o;", kb)) and \
+        bool(re.search(r"socklen_t sl = \(ss\.ss_family == AF_INET\) \? sizeof\(sockaddr_in\) : sizeof\(sockaddr_in6\);", kb))
+    ab = re.sub(r"\s+", " ", bodies["addressFromSockaddr"])
+    addr_ok = bool(re.search(r"::inet_ntop\(AF_INET, &sa4->sin_addr, host, sizeof\(host\)\); addr\.host = host; addr\.port = ntohs\(sa4->sin_port\);", ab)) and \
+        bool(re.search(r"::inet_ntop\(AF_INET6, &sa6->sin6_addr, host, sizeof\(host\)\); addr\.host = host; addr\.port = ntohs\(sa6->sin6_port\);", ab))
+    # the session remembers the whole source address and sends to it
+    peer_copied = bool(re.search(r"std::memcpy\(\s*&s->peer\s*,\s*&from\s*,\s*fl\s*\)\s*;\s*s->plen\s*=\s*fl\s*;\s*s->pkey\s*=\s*k\s*;", rfl)) and \
+        bool(re.search(r"std::memcpy\(\s*&s->peer\s*,\s*&to\s*,\s*tl\s*\)\s*;\s*s->plen\s*=\s*tl\s*;\s*s->pkey\s*=\s*k\s*;", via))
+
+    # ---- id counters
+    def counter(name, typ):
+        mm = re.search(r"std::atomic<\s*%s\s*>\s+%s\s*\{\s*([^{}]*)\}\s*;" % (typ, name), src)
+        if mm:
+            return True, cxxscan.const_eval(mm.group(1))
+        mm = re.search(r"\b%s\s+%s\s*\{\s*([^{}]*)\}\s*;" % (typ, name), src)
+        if mm:
+            return False, cxxscan.const_eval(mm.group(1))
+        raise TranslateError("declaration of %s not recognised" % name)
+    sid_atomic, sid_init = counter("_nextSessionId", "SessionId")
+    lid_atomic, lid_init = counter("_nextListenerId", "ListenerId")
+    sid_uses = sorted(fn for fn in ("connect", "connectViaListener", "readFromListener") if re.search(r"=\s*_nextSessionId\+\+\s*;", cxxscan.function_body(src, fn)))
+    n_sid_mentions = len(re.findall(r"\b_nextSessionId\b", src))
+
+    def ltriples(xs):
+        return "[" + ", ".join("(" + ", ".join('"%s"' % y.replace('"', "'") for y in x) + ")" for x in xs) + "]"
 
     t = HEADER % (F + ", " + T)
     t += "namespace Iora.Gen.Udp\n"
@@ -153,26 +271,48 @@ def gen(repo):
     t += "def gcIntervalS : Nat := %d\n" % gc_s
     t += "def closeOnBackpressure : Bool := %s\n" % _lb(cob)
     t += "def useEdgeTriggered : Bool := %s\n" % _lb(edge)
-    t += "/-- `readFromListener` / `onClient`: the buffer is `buf.resize(_config.ioReadChunk)`, offered whole to recvfrom/recv with flags 0,\n"
-    t += "    and the data callback gets `BufferView{buf.data(), n}` (checked shapes; a different shape is a translator error) -/\n"
-    t += "def recvBufferIsIoReadChunk : Bool := true\n"
+    t += "/-- DERIVED from the source text (not literals of the translator): `readFromListener` / `onClient` resize the one buffer to\n"
+    t += "    `_config.ioReadChunk` and offer it whole to recvfrom/recv; the data callback gets exactly `BufferView{buf.data(), n}` -/\n"
+    t += "def recvBufferListenerIsIoReadChunk : Bool := %s\n" % _lb(recv_buf_l)
+    t += "def recvBufferClientIsIoReadChunk : Bool := %s\n" % _lb(recv_buf_c)
+    t += "def dataViewListenerIsReturnValue : Bool := %s\n" % _lb(view_l)
+    t += "def dataViewClientIsReturnValue : Bool := %s\n" % _lb(view_c)
+    t += "def recvBufferIsIoReadChunk : Bool := %s\n" % _lb(recv_buf_l and recv_buf_c and view_l and view_c)
     t += "/-- `_peerIndex.erase` sites: (function, erase happens only when the entry maps to the closing session) -/\n"
     t += "def peerIndexEraseSites : List (String × Bool) := [(\"closeNow\", %s), (\"shutdownDrain\", %s)]\n" % (_lb(close_guard), _lb(drain_guard))
     t += "def closeNowEraseGuarded : Bool := %s\n" % _lb(close_guard)
     t += "def shutdownDrainEraseGuarded : Bool := %s\n" % _lb(drain_guard)
-    t += "/-- `_peerIndex.emplace` sites and their guards (checked shapes): readFromListener under `it == end`, viaDo under `!peerExists` -/\n"
-    t += "def peerIndexInsertSites : List (String × String) := [(\"readFromListener\", \"absent\"), (\"viaDo\", \"absent\")]\n"
+    t += "/-- `_peerIndex.emplace` sites with the guard DERIVED from the text: \"absent\" iff the emplace of `key(addr)` sits under the\n"
+    t += "    not-found result of `_peerIndex.find(k)`; the found branch of readFromListener is exactly `sid = it->second` -/\n"
+    t += "def peerIndexInsertSites : List (String × String) := [(\"readFromListener\", \"%s\"), (\"viaDo\", \"%s\")]\n" % (ins_rfl, ins_via)
+    t += "def lookupUsesIndexedSession : Bool := %s\n" % _lb(lookup_plain)
     t += "/-- `sendDo`: the queue is over its cap when `wq.size() > maxWriteQueue` (true) or `>=` (false), tested after the push -/\n"
     t += "def clientOverflowStrict : Bool := %s\n" % _lb(ovf["s"] == ">")
     t += "def listenerOverflowStrict : Bool := %s\n" % _lb(ovf["lst"] == ">")
-    # ---- anchors: every C++ function a model definition mirrors must still exist; its body hash is recorded (a changed hash is
-    #      not an alarm — the lockstep decides — but it is visible in the evidence and in the diff of this file)
-    anchors = []
-    for fn in MIRRORED:
-        try:
-            anchors.append((fn, cxxscan.body_sha(cxxscan.function_body(src, fn))))
-        except cxxscan.ScanError:
-            raise TranslateError("mirrored function %s no longer exists in udp_engine.hpp" % fn)
+    t += "/-- epoll interest: does the mask handed to addEpoll / modEpoll contain EPOLLIN? (EPOLLOUT is or-ed in exactly under\n"
+    t += "    `wantWrite && !wq.empty()` in updateListener/updateClient — a different condition is a translator error) -/\n"
+    t += "def listenerAddArmsIn : Bool := %s\n" % _lb("EPOLLIN" in add_l)
+    t += "def clientAddArmsIn : Bool := %s\n" % _lb("EPOLLIN" in add_c)
+    t += "def listenerUpdateKeepsIn : Bool := %s\n" % _lb("EPOLLIN" in upd_l)
+    t += "def clientUpdateKeepsIn : Bool := %s\n" % _lb("EPOLLIN" in upd_c)
+    t += "def maskBases : List (String × String) := %s\n" % ltriples([("addListenerDo", "|".join(add_l)), ("connectDo", "|".join(add_c)),
+                                                                     ("updateListener", "|".join(upd_l)), ("updateClient", "|".join(upd_c))])
+    t += "/-- (function, call, flags argument) of every send/sendto/recv/recvfrom in the mirrored functions -/\n"
+    t += "def ioCallFlags : List (String × String × String) := %s\n" % ltriples(io_flags)
+    t += "/-- (function, level, option) of every setsockopt, and (function, type argument) of every socket() in the mirrored functions + addListenerDo -/\n"
+    t += "def sockopts : List (String × String × String) := %s\n" % ltriples(sockopts)
+    t += "def socketTypes : List (String × String) := %s\n" % ltriples(socktypes)
+    t += "/-- address canonicalisation (DERIVED): `key()` = getnameinfo(NI_NUMERICHOST|NI_NUMERICSERV) host + ':' + service for both families;\n"
+    t += "    `addressFromSockaddr` = inet_ntop host + ntohs(port) for both families; a ServerPeer session copies the whole source/target sockaddr -/\n"
+    t += "def keyIsNumericHostColonPort : Bool := %s\n" % _lb(key_ok)
+    t += "def addressFromSockaddrIsHostAndPort : Bool := %s\n" % _lb(addr_ok)
+    t += "def sessionKeepsWholePeerAddress : Bool := %s\n" % _lb(peer_copied)
+    t += "/-- id counters: `std::atomic<…>` members starting at …; `_nextSessionId++` is the initialiser in exactly these functions -/\n"
+    t += "def nextSessionIdAtomic : Bool := %s\ndef nextSessionIdInit : Nat := %d\n" % (_lb(sid_atomic), sid_init)
+    t += "def nextListenerIdAtomic : Bool := %s\ndef nextListenerIdInit : Nat := %d\n" % (_lb(lid_atomic), lid_init)
+    t += "def nextSessionIdAllocators : List String := [%s]\n" % ", ".join('"%s"' % x for x in sid_uses)
+    t += "def nextSessionIdMentions : Nat := %d\n" % n_sid_mentions
+    anchors = [(fn, cxxscan.body_sha(bodies[fn])) for fn in MIRRORED + ["addListenerDo", "key", "addressFromSockaddr"]]
     t += "/-- mirrored functions (udp_engine.hpp) with the SHA-256 prefix of their comment-stripped, whitespace-normalised bodies -/\n"
     t += "def anchors : List (String × String) := [%s]\n" % ", ".join('("%s", "%s")' % a for a in anchors)
     t += "end Iora.Gen.Udp\n"
